@@ -36,6 +36,7 @@ VOCAB = [
     "\"a\\\"b // c\"", "\"a \\", "b\"", "'c'", "'\"'", "'\\''", "'/*'", "'//'", "#a", "# a \\", "#", "  # a", "#a /* open",
     "#a // c", "/* c */ #a", "a #a", "\"s\" #", "a' '", "' '", "\t", "\ta\t", "*/ /*",
     "#a /* c *", "* d */ b", "/* x *", "// x \\\\", "\"a\\\\", "  /* i", "   */ #a",
+    "#error \"/*\"", "#warning \"a//b\" \\", "#error \"x\" // c", "#pragma message(\"/* not a comment\")", "# error '\"' /* c */",
 ]
 
 
@@ -54,7 +55,8 @@ def required_cells(tier):
     cells += ["splice", "splice-in-comment", "splice-in-directive", "directive", "directive-multi-line",
               "comment-marker-in-literal", "quote-in-comment", "no-final-newline", "class:E1", "class:E2", "class:R",
               "via-FileParser", "gcc-crosscheck", "crlf-line-ends", "class:LONG", "line>65536",
-              "c-header-first-reached-from-fortran"] + ["ext:" + e for e in C_FAMILY_EXTS]
+              "c-header-first-reached-from-fortran", "unusual-line-break-characters", "coverage-export-of-identical-files",
+              "literal-in-diagnostic-directive"] + ["ext:" + e for e in C_FAMILY_EXTS]
     return cells
 
 
@@ -120,6 +122,10 @@ def cells_of(text, ref):
         cells.add("no-final-newline")
     if len(text) > 65536 and max(map(len, text.split("\n"))) > 65536:
         cells.add("line>65536")
+    if re.search(r"#\s*(error|warning|pragma)[^\n]*[\"']", text):
+        cells.add("literal-in-diagnostic-directive")
+    if any(c in text for c in "\f\v\x85\u2028\u2029\x1c"):
+        cells.add("unusual-line-break-characters")
     return cells
 
 
@@ -232,6 +238,9 @@ def check_text(ctx, text, cls, work, sample_rng, via_file=False):
         if not problems and len(text) % 3 == 0 and "\r" not in text:
             problems = file_parser_check(ctx, text, ref, work, crlf=True)
             cells.add("crlf-line-ends")
+        if not problems and cls == "R" and len(text) % 40 == 7 and "#" not in text and ref.counted:
+            problems = coverage_twins_check(ctx, text, ref, work)
+            cells.add("coverage-export-of-identical-files")
         if not problems and cls == "R" and len(text) % 5 == 1 and "#" not in text:
             problems = mixed_language_check(ctx, text, ref, work)
             cells.add("c-header-first-reached-from-fortran")
@@ -284,6 +293,40 @@ def mixed_language_check(ctx, text, ref, work):
     return []
 
 
+def coverage_twins_check(ctx, text, ref, work):
+    """cbi-cov on a directory that holds the text twice under two names (plus an unrelated file): every file is listed,
+    each with the counted lines of its own text (used + unused = the reference's counted set)."""
+    import json
+    from cbimon import cli
+    d = os.path.join(work, "twins")
+    shutil.rmtree(d, ignore_errors=True)
+    os.makedirs(os.path.join(d, "cpu"))
+    os.makedirs(os.path.join(d, "gpu"))
+    for rel in ("cpu/kernel.cpp", "gpu/kernel.cpp"):
+        with open(os.path.join(d, rel), "w") as f:
+            f.write(text)
+    with open(os.path.join(d, "other.c"), "w") as f:
+        f.write("int other;\n")
+    db = os.path.join(work, "twins-db.json")
+    with open(db, "w") as f:
+        json.dump([{"file": os.path.join(d, "cpu/kernel.cpp"), "directory": d, "arguments": ["g++", "-c", os.path.join(d, "cpu/kernel.cpp")]}], f)
+    covp = os.path.join(work, "twins-cov.json")
+    rc, out, err = cli.run("cbi-cov", ["compute", "-S", d, "-o", covp, db], d)
+    ctx.acc.hook("cli-runs")
+    if rc != 0:
+        return [{"kind": "cbi-cov failed", "stderr": err[-300:]}]
+    cov = {e["file"]: e for e in json.load(open(covp))}
+    problems = []
+    for rel in ("cpu/kernel.cpp", "gpu/kernel.cpp"):
+        e = cov.get(rel)
+        got = sorted(set(e["used_lines"]) | set(e["unused_lines"])) if e else None
+        if got != ref.counted:
+            problems.append({"kind": "coverage export of one of two identical files", "file": rel, "expected": ref.counted, "observed": got})
+    if "other.c" not in cov:
+        problems.append({"kind": "coverage export misses a file", "file": "other.c"})
+    return problems
+
+
 def file_parser_check(ctx, text, ref, work, crlf=False):
     """Same text through FileParser.parse_file on a real file: node.lines, node classes, total_sloc.
     crlf: the file is written with CRLF line ends (same physical lines, same expected classes).
@@ -324,7 +367,10 @@ def file_parser_check(ctx, text, ref, work, crlf=False):
 TOKENS = ["a", "b1", "1", "x = y", ";", "{", "}", " ", "  ", "\t", "/", "*", "/* c */", "/* c\n c */", "/*\n*\n*/", "// c",
           "// c \\\n c", "\"s\"", "\"/*\"", "\"//\"", "\"\\\"\"", "\"a\\\\\"", "'c'", "'\\''", "'\"'", "'\\\\'", "\\\n",
           " \\\n", "#a", "# a b", "#a \\\n b", "\n", "\n", "\n", "a/b", "a / b", "a/*c*/b", "*/", "/ *", "* /", "'/'", "\"'\"",
-          "/* ' */", "/* \" */", "// '", "// \"", "#a // c", "#a /* c\n */ b", "/* c */ #a"]
+          "/* ' */", "/* \" */", "// '", "// \"", "#a // c", "#a /* c\n */ b", "/* c */ #a",
+          # characters that some line splitters take for line ends: form feed and vertical tab are white space in C,
+          # the others only appear inside comments here
+          "\f", "\v", "a\fb", " \f ", "/* x\fy */", "// c\vd", "/* \x85 \u2028 \x1c\x1d\x1e */", "// \u2029 \x85"]
 
 
 def random_text(rng):
